@@ -345,6 +345,15 @@ func (e *Enc) obligeAt(pc, kind, named, claim string, pos token.Pos, desc string
 
 func (e *Enc) newEpoch() int { e.nepoch++; return e.nepoch }
 
+// rootOfHeapKey: the heap root (element type key) a heap component belongs to. Type keys
+// contain '/' themselves (package paths), so the registered key is authoritative.
+func (e *Enc) rootOfHeapKey(key string) string {
+	if hk, ok := e.hkeys[key]; ok {
+		return hk.Root
+	}
+	return rootOfKey(key)
+}
+
 func rootOfKey(key string) string {
 	if i := strings.Index(key, "/"); i >= 0 {
 		return key[:i]
